@@ -10,7 +10,7 @@ def exes():
             "tsan": build.link("tsan-nopool", "c17_tsan", ["kernel.c", "c17_tsan.c"], "-Wl,--wrap=exit -Wl,--wrap=time")}
 def prepare(): exes()
 
-MIX2 = ["plain|plain-latex", "plain|email", "email|email2", "random-foot|random-foot2", "epub|plain", "plain+plain-latex|plain-latex+plain", "epub|email"]
+MIX2 = ["plain|plain-latex", "plain|email", "email|email2", "random-foot|random-foot2", "epub|plain", "plain+plain-latex|plain-latex+plain", "epub|email", "critic-a|critic-r", "opml-in|meta", "de|plain"]
 MIX3 = ["plain|plain-latex|plain", "plain|email|plain-latex", "email|email2|random-foot"]
 BENIGN = {"lc_lookup", "yyRuleName", "yyTokenName", "s_error_descs"}
 
@@ -67,9 +67,9 @@ def run(tier):
     rep.add_sample(dict(mix="email|email2", threads=2, jobs=["mail <a@b.c> here (EXT_OBFUSCATE, html)", "<mailto:x@y.zz> text (html)"], bound=bound))
     rep.add_sample(dict(mix="plain|plain-latex", note="negative control: no shared state touched"))
     # 2b. the same explorer on a build instrumented with -finstrument-functions: EVERY function entry of the library is a scheduling
-    #     point; all schedules with at most one preemption (two tiny documents): catches state shared through a variable the
+    #     point; all schedules with at most one preemption (two tiny documents, incl. the text-level CriticMarkup passes, OPML import and metadata queries): catches state shared through a variable the
     #     accessor-level hooks do not know about (a hoisted static buffer, a lazily built table)
-    t2 = time.time(); fmix = ["tiny-a|tiny-b", "tiny-b|tiny-c"] if tier == "quick" else ["tiny-a|tiny-b", "tiny-b|tiny-c", "tiny-a|tiny-c", "tiny-a|tiny-a"]
+    t2 = time.time(); fmix = ["tiny-a|tiny-b", "tiny-b|tiny-c", "critic-a|critic-r", "opml-in|meta"] if tier == "quick" else ["tiny-a|tiny-b", "tiny-b|tiny-c", "tiny-a|tiny-c", "tiny-a|tiny-a", "critic-a|critic-r", "critic-r|critic-r", "opml-in|meta", "opml-in|opml-in", "de|tiny-a", "meta|tiny-b"]
     r = subprocess.run([ex["sched_fn"], "1", str(int(dl * 0.25))] + fmix, capture_output=True, env=core.driver_env())
     fsched = 0; fcomplete = True; fdist = 0
     for ln in r.stdout.decode(errors="replace").splitlines():
